@@ -8,6 +8,10 @@ Domain : general Colang 2 programs (vf/co2.py: match/send/actions/start/await/ac
          other parameter / the same pattern twice), so that one event satisfies several alternatives - with equal or different
          matching scores - and the merge of the forked heads depends on the tie-break: drawn into half of the generated programs
          and enumerated (5 constructs x all pattern pairs x all short histories x 3-4 tie-break outcomes).
+         And one more: a PARENT flow and its CHILD waiting for the SAME event, the parent (first in the hierarchy order) ending on
+         it - finishes, returns, aborts - while the child's matched head is still queued, the child's next statement being a head
+         fork (or-/and-group, when, send/start/await group): drawn into 2 of 5 generated programs (with the shared event steered
+         into the history) and enumerated (4 relations x 5 parent ends x 10 child continuations x 3 pattern pairs x short histories).
 Oracle : structural invariants after EVERY run_to_completion (vf/smh.invariants): I1 no pending internal event, I2 every
          listening flow's live heads are parked on match/WaitForHeads (smh also tolerates MergeHeads; merges_pending() below
          does not: a head merging statement is executed, not waited on, so no live head may be left there), I3 finished/stopped
@@ -25,8 +29,9 @@ PID = "C09"
 LEVEL = "exploration"
 CASE_TIMEOUT = 40
 RULE = (
-    "enumerated: the same-event or-group family - 5 constructs that fork heads and merge them again (`match A or B`, `match A or B or A`, `match (A and Ev1) or (B and Ev1)`, `when A or B / or when Ev1`, `await fa or fb` with fa/fb waiting for A/B; each program passes the group twice) x ALL 15 pairs {A, B} of 5 patterns of one event (Ev0(), Ev0(v=1), Ev0(v=regex(\"1\")), Ev0(v=regex(\"[01]\")), Ev0(w=2): one event satisfies both alternatives with equal or with different matching scores, or only one of them) x ALL histories of length <= 2 (quick) / 3 (thorough) over Ev0(v=1,w=2), Ev0(v=1), Ev0(v=0,w=2), Ev1, state round trip x tie-break outcomes [] (first candidate), [1], [0,1] (and [2] with three alternatives); plus four hand-written program families (two flows sharing one co-won action; a state round trip while a flow waits inside an open fork; one match statement reached with references of different action types; an activated flow whose scope end stops an action) x ALL histories of length <= 4 (quick) / 5 (thorough) over 5-6 items incl. idle time; generated, 3 of 4 cases: program from the co2 grammar (1-4 helper flows h_i that only reference h_j, j>i; every while body starts with a wait; main ends in "
-    "`match Never()`; in half of the programs waits are rewritten into same-event or-groups: every `match EvA or EvB` with probability 1/2 and every plain `match Ev<k>` with probability 1/2 or 1/4 becomes `match Ev<k>(p1) or Ev<k>(p2) [or Ev<k>(p3)]` with patterns drawn from (), (v=0), (v=1), (v=regex 0), (v=regex 1), (v=regex [01]) - label same-event-or-group) x history of 1-30 items (Ev0..Ev3 with v in {None,0,1}; Started/Finished of the k-th running action) x 0-3 tie-break "
+    "enumerated: the parent-ends-on-shared-event family - a parent flow and its child wait for the SAME event Ev0 (pattern pairs parent/child: ()/(), (v=1)/(), ()/(v=1): equal scores, parent or child more specific), the parent is first in the hierarchy order and, once matched, finishes | returns | aborts | sends and finishes | goes on (control), while the child's next statement after its match is `match A or B` | `match A and B` | when/or when | `send A and B` | `start ActionA and ActionB` | `await ActionA or ActionB` | `await fa or fb` | a plain match | a send | nothing (child ends too) - 5 parent ends x 10 child continuations x 4 relations (parent starts the child; activates it; starts a middle flow that awaits the child; the parent itself is activated by main and restarts) x 3 pattern pairs x ALL histories of length <= 2 (quick) / 3 (thorough) over Ev0(v=1), Ev0(), Ev1, Ev2, Finished of the first running action (thorough: + state round trip) that contain Ev0 at least once; non-trivial = a parent and its child were both indexed for the event that was fed and the parent ended during it; "
+    "the same-event or-group family - 5 constructs that fork heads and merge them again (`match A or B`, `match A or B or A`, `match (A and Ev1) or (B and Ev1)`, `when A or B / or when Ev1`, `await fa or fb` with fa/fb waiting for A/B; each program passes the group twice) x ALL 15 pairs {A, B} of 5 patterns of one event (Ev0(), Ev0(v=1), Ev0(v=regex(\"1\")), Ev0(v=regex(\"[01]\")), Ev0(w=2): one event satisfies both alternatives with equal or with different matching scores, or only one of them) x ALL histories of length <= 2 (quick) / 3 (thorough) over Ev0(v=1,w=2), Ev0(v=1), Ev0(v=0,w=2), Ev1, state round trip x tie-break outcomes [] (first candidate), [1], [0,1] (and [2] with three alternatives); plus four hand-written program families (two flows sharing one co-won action; a state round trip while a flow waits inside an open fork; one match statement reached with references of different action types; an activated flow whose scope end stops an action) x ALL histories of length <= 4 (quick) / 5 (thorough) over 5-6 items incl. idle time; generated, 3 of 4 cases: program from the co2 grammar (1-4 helper flows h_i that only reference h_j, j>i; every while body starts with a wait; main ends in "
+    "`match Never()`; in half of the programs waits are rewritten into same-event or-groups: every `match EvA or EvB` with probability 1/2 and every plain `match Ev<k>` with probability 1/2 or 1/4 becomes `match Ev<k>(p1) or Ev<k>(p2) [or Ev<k>(p3)]` with patterns drawn from (), (v=0), (v=1), (v=regex 0), (v=regex 1), (v=regex [01]) - label same-event-or-group; in 2 of 5 programs with >= 2 helpers a helper P is made the parent of a later helper C waiting for the same event: C's first statement becomes `match Ev<e>(pc)` followed by a drawn head fork (or-group, and-group, same-event or-group, when, send group, start group, await-actions group, await-flows group) or by whatever was generated, P gets `start C` / `activate C` + `match Ev<e>(pp)` at a drawn top-level place (before / after its own first wait or later; pp = pc in half of the cases, else patterns of different specificity) and then ends - runs off its end, `return`, `abort` - or goes on, main starts P first thing in 2 of 3 such programs, and Ev<e> is inserted at 1-3 drawn places of the history - labels shared-wait-parent-child, shared-wait-parent:<end>, shared-wait-child-next:<kind>, and, observed at run time for every leg, parent-ended-on-event-its-child-waited-for) x history of 1-30 items (Ev0..Ev3 with v in {None,0,1}; Started/Finished of the k-th running action) x 0-3 tie-break "
     "choices; 1 of 4 cases: the shipped library (core, timing, avatars) under a generated main that activates 0-5 library flows and loops over 1-4 `when <user flow> / <bot flow>` cases, with histories of user utterances (final/interim/started), Ev0 and Started/Finished of running actions (timers, utterances, gestures, CheckFlowDefinedAction); invariants I1-I6 are evaluated after the start and after every event (I2 strictly: match or WaitForHeads only, a live head left on a MergeHeads statement is a violation). Tie-breaks are owned by the case (`choices`, cyclic; label tie-break-not-first-candidate = some consumed choice asked for another than the first candidate). Non-trivial = the program forks heads (group/when) AND "
     "some flow instance with children or actions ended during the history AND the history has >= 10 events; for the same-event family: >= 1 event fed and several heads arrived at one merge statement (a winner was picked); distinct by case (program, history, choices)."
 )
@@ -34,6 +39,7 @@ ASSUMPTIONS = [
     "programs whose own statements raise are C10's domain and are not generated here, so any exception out of run_to_completion is reported",
     "histories contain explicit `age` items (6 s of idle time on the harness-owned clock), otherwise the clock is frozen",
     "a head merging statement (MergeHeads) is not a waiting statement in the sense of the property: a head that reaches it is merged in the same run_to_completion (winner continues, the others turn inactive) and nothing a later event does could release a head left there, so a live head on MergeHeads after an event counts as 'left on a statement that could still execute'",
+    "the label parent-ended-on-event-its-child-waited-for (and the non-trivial rule of the parent/child family) reads the interpreter's own index before the event is fed - coverage bookkeeping only, no verdict depends on it",
     "events of the generated histories carry the parameter v only (None, 0, 1), so generated same-event alternatives are patterns over v; the second parameter w only occurs in the enumerated family",
 ]
 WALL = {"quick": 170, "thorough": 1500}
@@ -142,6 +148,68 @@ def _rewrite(draw, stmts, rate):
             _rewrite(draw, c["body"], rate)
 
 
+SHARED_ENDS = ["finishes", "finishes", "returns", "aborts", "goes-on"]
+SHARED_CONTS = ["or-group", "and-group", "same-event-or", "when", "send-group", "start-group", "await-actions", "await-flows", "as-generated", "as-generated"]
+
+
+def _fork_stmt(draw, kind, callees):
+    """One statement of the co2 grammar that forks heads (the child's statement right after the shared wait)."""
+    two = lambda hi: draw(st.lists(st.integers(0, hi), min_size=2, max_size=3, unique=True))  # noqa: E731
+    if kind == "await-flows" and len(callees) < 2:
+        kind = "or-group"
+    if kind in ("or-group", "and-group"):
+        return {"k": "matchg", "op": kind[:-6], "evs": two(co2.EVENTS - 1)}
+    if kind == "same-event-or":
+        return _same_event_group(draw(st.integers(0, co2.EVENTS - 1)), [draw(st.integers(0, len(V_PATTERNS) - 1)) for _ in range(2)])
+    if kind == "when":
+        return {"k": "when", "cases": [{"ev": e, "body": [{"k": "send", "n": draw(st.integers(0, 5))}]} for e in two(co2.EVENTS - 1)]}
+    if kind == "send-group":
+        return {"k": "sendg", "op": draw(st.sampled_from(["or", "and"])), "ns": two(5)}
+    if kind in ("start-group", "await-actions"):
+        return {"k": "startga" if kind == "start-group" else "awaitga", "op": draw(st.sampled_from(["or", "and"])), "acts": two(len(co2.ACTIONS) - 1)}
+    return {"k": "awaitg", "op": draw(st.sampled_from(["or", "and"])), "fs": draw(st.lists(st.sampled_from(callees), min_size=2, max_size=3, unique=True))}
+
+
+def _share_wait(draw, prog):
+    """One more dimension of the program: a helper P (the parent) starts / activates a later helper C (its child) and then waits for
+    the SAME event as C's first statement (patterns equal or of different specificity); after that wait P ends (runs off its end,
+    returns, aborts) or goes on; C's statement after its wait is a head fork of a drawn kind (or stays as generated); main starts P
+    first thing in 2 of 3 programs. Returns the description that goes into the case (labels, history steering) or None."""
+    helpers = prog["flows"][:-1]
+    if len(helpers) < 2:
+        return None
+    i = draw(st.integers(0, len(helpers) - 2))
+    j = draw(st.integers(i + 1, len(helpers) - 1))
+    parent, child = helpers[i]["body"], helpers[j]["body"]
+    e = draw(st.integers(0, co2.EVENTS - 1))
+    pp = draw(st.sampled_from([0, 0, 2, 4, 5]))
+    pc = pp if draw(st.booleans()) else draw(st.sampled_from([0, 2, 4, 5]))
+    end, cont = draw(st.sampled_from(SHARED_ENDS)), draw(st.sampled_from(SHARED_CONTS))
+    # the child: its first statement (a wait, after the two initialisations) becomes the shared wait, a fork follows
+    child[2] = {"k": "raw", "shared": "child", "text": f"match Ev{e}({V_PATTERNS[pc]})"}
+    if cont != "as-generated":
+        callees = [c for c in range(j + 1, len(helpers)) if not helpers[c]["params"]]
+        child.insert(3, _fork_stmt(draw, cont, callees))
+    # the parent: `start C` / `activate C` + the shared wait at top level, before or after its own first wait or later
+    k = draw(st.integers(2, min(len(parent), 5)))
+    while k > 2 and parent[k - 1]["k"] in ("return", "abort"):
+        k -= 1
+    arg = draw(st.integers(0, 2)) if helpers[j]["params"] else None
+    if arg is None and draw(st.integers(0, 2)) == 0:
+        # (with recursive calls in the program C may thus be activated by one of its own descendants - found C09-F31)
+        call = {"k": "activate", "f": j}
+    else:
+        call = {"k": "startflow", "f": j, "arg": arg, "ref": 90}
+    block = [call, {"k": "raw", "shared": "parent", "text": f"match Ev{e}({V_PATTERNS[pp]})"}]
+    if end == "goes-on":
+        parent[k:k] = block
+    else:
+        parent[k:] = block + ([] if end == "finishes" else [{"k": end[:-1]}])
+    if draw(st.integers(0, 2)) > 0:
+        prog["flows"][-1]["body"].insert(2, {"k": "startflow", "f": i, "arg": draw(st.integers(0, 2)) if helpers[i]["params"] else None, "ref": 91})
+    return {"parent": i, "child": j, "ev": e, "end": end, "cont": cont}
+
+
 @st.composite
 def _case(draw):
     if draw(st.integers(0, 3)) == 0:
@@ -152,11 +220,21 @@ def _case(draw):
         rate = draw(st.sampled_from([2, 4]))
         for fl in prog["flows"]:
             _rewrite(draw, fl["body"], rate)
-    return {
+    # one more dimension: a parent and its child waiting for the same event, the parent ending on it (2 of 5 programs with >= 2 helpers)
+    shared = _share_wait(draw, prog) if draw(st.integers(0, 4)) < 2 else None
+    hist = draw(co2.histories(30))
+    if shared:
+        # steer the history: the shared event is fed at 1-3 drawn places (mostly with v=1, which most of the drawn patterns accept)
+        for _ in range(draw(st.integers(1, 3))):
+            hist.insert(draw(st.integers(0, min(len(hist), 12))), ["ev", shared["ev"], draw(st.sampled_from([1, 1, None, 0]))])
+    case = {
         "prog": prog,
-        "hist": draw(co2.histories(30)),
+        "hist": hist,
         "choices": draw(st.lists(st.integers(0, 3), max_size=3)),
     }
+    if shared:
+        case["shared"] = shared
+    return case
 
 
 def strategy(tier):
@@ -310,7 +388,72 @@ def _same_event_cases(tier):
                         yield {"leg": "or", "family": "same-event-or", "construct": construct, "alts": list(alts), "hist": [list(x) for x in h], "choices": choices}
 
 
+# a PARENT flow and its CHILD wait for the SAME event; the parent comes first in the hierarchy order, so when both are matched the
+# parent is advanced first - and if it ENDS on that event (runs off its end, returns, aborts) it stops the child whose head has been
+# matched by the very same event and is still queued for advancing. A finished / stopped instance holds no position (I3): whatever the
+# child's next statement is - in particular one that FORKS heads - nothing of it may be executed or left behind.
+PC_END = {  # what the parent does after its match
+    "finishes": [],
+    "returns": ["return"],
+    "aborts": ["abort"],
+    "sends-and-finishes": ["send OutP()"],
+    "goes-on": ["match Ev2()", "send OutQ()"],  # control: the parent does not end on the shared event
+}
+PC_CONT = {  # the child's statement(s) after its match
+    "or-group": ["match Ev1() or Ev2()"],
+    "and-group": ["match Ev1() and Ev2()"],
+    "when": ["when Ev1()", "  send OutW()", "or when Ev2()", "  send OutX()"],
+    "send-group": ["send OutA() and OutB()"],
+    "start-group": ['start UtteranceBotAction(script="a") and GestureBotAction(gesture="g")'],
+    "await-actions": ['await UtteranceBotAction(script="a") or GestureBotAction(gesture="g")'],
+    "await-flows": ["await fa or fb"],
+    "match": ["match Ev1()"],  # controls: no fork
+    "send": ["send OutA()"],
+    "ends": None,  # the child finishes on the shared event as well
+}
+PC_REL = {  # how the child hangs below the parent / how the parent is run: (statement in parent, statement in main)
+    "start": ("start child", "start parent"),
+    "activate": ("activate child", "start parent"),
+    "grandchild": ("start mid", "start parent"),  # parent -> mid (awaits child) -> child
+    "parent-activated": ("start child", "activate parent"),  # the parent is restarted when it ends (and starts a new child)
+}
+PC_PATS = [("", ""), ("v=1", ""), ("", "v=1")]  # (parent, child) patterns of Ev0; with the last pair the child is the more specific match
+PC_ITEMS = [["evp", 0, 1, None], ["ev", 0, None], ["ev", 1, None], ["ev", 2, None], ["finished", 0]]
+
+
+def pc_program(case):
+    p, c = case["pats"]
+    cont = PC_CONT[case["cont"]]
+    child = [f"match Ev0({c})"] + ([] if cont is None else cont + ["send OutC()", "match Ev3()"])
+    in_parent, in_main = PC_REL[case["rel"]]
+    parent = [in_parent, f"match Ev0({p})"] + PC_END[case["end"]]
+    flows = [
+        ("fa", ["match Ev1()"]),
+        ("fb", ["match Ev2()"]),
+        ("child", child),
+        ("mid", ["await child"]),
+        ("parent", parent),
+        ("main", [in_main, "match Ev2()", "send OutM()", "match Never()"]),
+    ]
+    return "\n".join(f"flow {n}\n" + "".join(f"  {line}\n" for line in body) for n, body in flows)
+
+
+def _parent_child_cases(tier):
+    n = 2 if tier == "quick" else 3
+    items = PC_ITEMS + ([] if tier == "quick" else [["save"]])
+    for rel in PC_REL:
+        for end in PC_END:
+            for cont in PC_CONT:
+                for pats in PC_PATS:
+                    for k in range(1, n + 1):
+                        for h in itertools.product(items, repeat=k):
+                            if not any(x[1] == 0 for x in h if x[0] in ("ev", "evp")):
+                                continue  # without the shared event Ev0 the family's situation cannot arise
+                            yield {"leg": "pc", "family": "parent-ends-on-shared-event", "rel": rel, "end": end, "cont": cont, "pats": list(pats), "hist": [list(x) for x in h], "choices": []}
+
+
 def enumerate_cases(tier):
+    yield from _parent_child_cases(tier)
     yield from _same_event_cases(tier)
     for name, (text, items) in FAMILIES.items():
         n = 4 if tier == "quick" else 5
@@ -355,7 +498,32 @@ def _lib_flows():
     return copy.deepcopy(_lib["flows"])
 
 
-class LibSession(smh.Session):
+class Observed:
+    """Mixin: remembers which flow instances waited for the name of the event that is fed (read before the event is processed; used
+    for labels only: 'a parent and its child both waited for this event and the parent ended on it')."""
+
+    waited = ()
+
+    def feed(self, item):
+        e = self.concrete(item)
+        if e is None:
+            return None
+        self.waited = sorted({f for f, _ in self.state.event_matching_heads.get(e["type"], [])})
+        out = smh.feed(self.state, e)
+        self._ledger(out)
+        return out
+
+    def parent_ended_below(self):
+        """Did some instance end during the last event while a child of it was waiting for the same event name?"""
+        fss = self.state.flow_states
+        for uid in self.waited:
+            fs = fss.get(uid)
+            if fs is not None and fs.parent_uid in self.waited and fs.parent_uid in fss and fss[fs.parent_uid].status.value in ("finished", "stopped"):
+                return True
+        return False
+
+
+class LibSession(Observed, smh.Session):
     """Session over the shipped library: user utterance items on top of the generic action life-cycle items."""
 
     def __init__(self, text, choices):
@@ -384,7 +552,7 @@ class LibSession(smh.Session):
         return ev
 
 
-class Session(smh.Session):
+class Session(Observed, smh.Session):
     """smh.Session plus events with two parameters: ["evp", k, v|None, w|None] -> Ev<k>(v=.., w=..)."""
 
     def concrete(self, item):
@@ -437,12 +605,18 @@ def prop(case):
 
         kinds = Counter(kinds)
         mk = lambda: LibSession(text, case["choices"])  # noqa: E731
+    elif case.get("leg") == "pc":
+        from collections import Counter
+
+        text = pc_program(case)
+        kinds = Counter({"matchg": int(case["cont"] not in ("match", "send", "ends")), "when": int(case["cont"] == "when"), "activate": int("activate" in case["rel"]), "startact": int(case["cont"] in ("start-group", "await-actions"))})
+        mk = lambda: Session(text, case["choices"])  # noqa: E731
     elif case.get("leg") == "text":
         from collections import Counter
 
         text = case["text"]
         kinds = Counter({"when": 1, "startact": 1})
-        mk = lambda: smh.Session(text, case["choices"])  # noqa: E731
+        mk = lambda: Session(text, case["choices"])  # noqa: E731
     else:
         text = co2.render(case["prog"])
         kinds = co2.count_kinds(case["prog"])
@@ -456,6 +630,7 @@ def prop(case):
     if bad:
         raise Violation(bad[0][0], f"after start: {bad[0][1]}\n{text}")
     ended_with_children = False
+    parent_ended_below = False
     seen_done = set()
     fed = 0
     for i, item in enumerate(case["hist"]):
@@ -469,6 +644,7 @@ def prop(case):
         bad = invariants(s.state)
         if bad:
             raise Violation(bad[0][0], f"after event #{i} {item} of {case['hist'][: i + 1]}: {bad[0][1]}\n{text}")
+        parent_ended_below = parent_ended_below or s.parent_ended_below()
         for fs in s.state.flow_states.values():
             if fs.uid not in seen_done and fs.status.value in ("finished", "stopped"):
                 seen_done.add(fs.uid)
@@ -496,6 +672,12 @@ def prop(case):
     used = smh.CHOOSER.used
     if used and case["choices"] and any(case["choices"][i % len(case["choices"])] for i in range(used)):
         labels.append("tie-break-not-first-candidate")
+    if parent_ended_below:
+        labels.append("parent-ended-on-event-its-child-waited-for")
+    if case.get("leg") == "pc":
+        labels += ["family:" + case["family"], "pc-end:" + case["end"], "pc-child-next:" + case["cont"], "pc-relation:" + case["rel"]]
+    if case.get("shared"):
+        labels += ["shared-wait-parent-child", "shared-wait-parent:" + case["shared"]["end"], "shared-wait-child-next:" + case["shared"]["cont"]]
     if case.get("leg") == "text":
         labels.append("family:" + case["family"])
     elif case.get("leg") == "lib":
@@ -510,6 +692,8 @@ def prop(case):
     view = {"program": text, "history": case["hist"][:12], "flows_alive": len(s.state.flow_states)}
     if case.get("leg") == "text":
         nt = fed >= 3
+    if case.get("leg") == "pc":
+        nt = fed >= 1 and parent_ended_below  # parent and child both waited for the event that was fed and the parent ended on it
     if case.get("leg") == "or":
         nt = fed >= 1 and smh.CHOOSER.used > 0  # several heads arrived at one merge statement and a winner had to be picked
     return ok(nt=nt, labels=labels, view=view, counters={"events_fed": fed})
